@@ -273,7 +273,8 @@ impl Family for DataEv {
         }
         v /= 2;
         if v % 2 == 1 {
-            nd.events = vec![("ev".into(), vec![("n".into(), format!("{}", idx))]), (format!("e{}", idx), vec![])];
+            // attribute keys in an order no sorting would produce ('Z' < '_contract_address' < 'a' < 'n')
+            nd.events = vec![("ev".into(), vec![("n".into(), format!("{}", idx)), ("Z".into(), "z".into()), ("a".into(), "".into())]), (format!("e{}", idx), vec![])];
         }
         nd.writes.push(WriteOp::Set(format!("m{}", idx).into_bytes(), b"1".to_vec()));
     }
